@@ -291,6 +291,34 @@ func c17(r *Run) {
 			r.missing("C17.R3", "secp256r1.Verify:ecdsa.Verify", "ecdsa.Verify call not found")
 		}
 	}
+	// R4: ZIP-215 verification accepts public keys of small order: for such a key [k]A vanishes and s = 0 with a
+	// small-order R verifies every message, without any private key and in many encodings. The scheme wrapper has to
+	// screen the key before handing it to the consensus verifier (single and batch).
+	r.rule("C17.R4", "K1", "ed25519: the public key is screened (small-order points rejected) before ZIP-215 verification, single and batch", 2)
+	for _, p := range [][2]string{{H + "/crypto/ed25519.Verify", "github.com/hdevalence/ed25519consensus.Verify"}, {"(*" + H + "/crypto/ed25519.Batch).Add", "(*github.com/hdevalence/ed25519consensus.BatchVerifier).Add"}} {
+		f := r.fn(w, "C17.R4", p[0])
+		if f == nil {
+			continue
+		}
+		cs := callsNamed(f, p[1])
+		okk := len(cs) == 1
+		if okk {
+			// some controlling condition of the consensus call depends on the public key parameter
+			okk = false
+			var key ssa.Value
+			for _, prm := range f.Params {
+				if strings.HasSuffix(prm.Type().String(), "crypto/ed25519.PublicKey") {
+					key = prm
+				}
+			}
+			for _, cc := range ctrlConds(cs[0].Block()) {
+				if key != nil && derivesFrom(cc.If.Cond, func(v ssa.Value) bool { return v == key }) {
+					okk = true
+				}
+			}
+		}
+		r.check(okk, "C17.R4", short(p[0])+":public-key-screened", w.rel(f.Pos()), "", "the public key reaches the ZIP-215 verifier unscreened: keys of small order verify any message with s = 0 (no private key), in many encodings")
+	}
 }
 
 // ----------------------------------------------------------------------------- C15
